@@ -238,7 +238,7 @@ def operators(draw, c):
     kinds = draw(st.lists(st.sampled_from(avail), min_size=1, max_size=5))
     if c["target"] == "skygrid" and "block" not in kinds:
         kinds[0] = "block"
-    if len(set(kinds)) < 2 and len(set(avail)) >= 2 and draw(st.integers(0, 9)) > 0:
+    if len(set(kinds)) < 2 and len(set(avail)) >= 2 and draw(st.sampled_from([True] * 9 + [False])):
         kinds.append(draw(st.sampled_from([k for k in avail if k != kinds[0]])))
     ops = []
     for j, kind in enumerate(kinds):
@@ -856,10 +856,11 @@ def bold_sign(kind):
         js = []
         for seed in range(120):
             torch.manual_seed(1000 + seed)
+            for i in state:  # the harness, not the operator, puts the state back (reject() is under test)
+                dic[i].tensor = tt.T(state[i])
             b = {i: dic[i].tensor.detach().clone() for i in watch}
             op.step()
             js.append(sum(float(((dic[i].tensor.detach() - b[i]) ** 2).sum()) for i in watch))
-            op.reject()
         jumps.append(np.asarray(js))
     d = jumps[1] - jumps[0]
     sd = d.std(ddof=1)
@@ -1006,10 +1007,14 @@ def _body(c, tmp):
                 tolh = 1e-8 * scale * (max(1.0, info.get("amplification", 1.0)) if cls == "HMCOperator" else 1.0)
                 if cls == BLOCK:
                     tolh = 1e-6 * scale
-                if math.isnan(H_impl) or not (abs(H_impl - H_ref) <= tolh or (math.isnan(H_ref))):
+                bad_h = math.isnan(H_impl) or (not math.isnan(H_ref) and not abs(H_impl - H_ref) <= tolh)
+                if bad_h:
                     fail("hastings", dict(where, reported=H_impl, reference=H_ref, **{k: v for k, v in info.items() if isinstance(v, float)}), cls)
                 if math.isnan(H_ref):
                     H_ref = None
+                elif bad_h and math.isfinite(H_impl):
+                    # reported once as 'hastings'; the decision rule is then checked with the ratio the operator gave
+                    H_ref, unguarded = None, True
         # ---- (a) density used for the proposal
         f_cur = fresh(s_before)
         used = None
@@ -1233,5 +1238,5 @@ def selftest():
 
 def subchecks(tier):
     return [
-        Sub("runs", body, strategy=cases, quick=160, thorough=4000, raising_is_failure=True, shrink_s=40),
+        Sub("runs", body, strategy=cases, quick=220, thorough=4000, raising_is_failure=True, shrink_s=40),
     ]
